@@ -446,7 +446,7 @@ func (r *runner) runOne(g int, i int64) (sigs []string, desc json.RawMessage, cr
 	hang := false
 	select {
 	case <-doneCh:
-	case <-time.After(time.Duration(3*r.hangSecs) * time.Second):
+	case <-time.After(time.Duration(r.hangConfirmSecs()) * time.Second):
 		hang = true
 		cmd.Process.Kill()
 		<-doneCh
@@ -472,6 +472,18 @@ func (r *runner) runOne(g int, i int64) (sigs []string, desc json.RawMessage, cr
 		crash = crashClass(tb.String(), hang)
 	}
 	return
+}
+
+// hangConfirmSecs is the limit of the isolated confirmation run: 4x the watchdog, unless the check
+// implements HangConfirmer (a check whose known findings include genuine infinite loops can bound the
+// cost of re-confirming them on every run).
+func (r *runner) hangConfirmSecs() int {
+	if h, ok := r.c.(HangConfirmer); ok {
+		if s := h.HangConfirmSeconds(); s > 0 {
+			return s
+		}
+	}
+	return 2 * r.hangSecs
 }
 
 func sigFile(sig string) string {
